@@ -425,7 +425,7 @@ func report(o *options, all []*hstate, known map[string]string, overlay map[stri
 		unwind += h.Status["unwind"]
 		aborts += h.Status["abort"]
 		unknowns += h.Unknowns
-		okPaths := h.Status["ok"]
+		okPaths := h.Status["ok"] + h.Status["known"]
 		if okPaths == 0 {
 			broken = append(broken, fmt.Sprintf("%s[%s]: no path completed (vacuous) statuses=%v reasons=%v", h.H.Name, h.Config, h.Status, topReasons(h.Reasons, 3)))
 		}
